@@ -104,6 +104,15 @@ impl JobState {
         }
     }
 
+    fn is_aborted(&self) -> bool {
+        matches!(
+            self,
+            JobState::Always(JobStateAlways::FinishedAborted)
+                | JobState::Output(JobStateOutput::FinishedAborted)
+                | JobState::Ephemeral(JobStateEphemeral::FinishedAborted)
+        )
+    }
+
     fn is_upstream_failure(&self) -> bool {
         match self {
             JobState::Always(JobStateAlways::FinishedUpstreamFailure) => true,
@@ -799,7 +808,9 @@ impl<T: PPGEvaluatorStrategy> PPGEvaluator<T> {
                     job.state.is_failed()
                         || Self::_job_and_downstreams_are_ephemeral(&self.dag, &self.jobs, idx)
                 );
-                if !job.state.is_upstream_failure() {
+                // jobs that never started (upstream failure, or aborted before
+                // they ran) keep their history.
+                if !job.state.is_upstream_failure() && !job.state.is_aborted() {
                     out.remove(&job.job_id);
                     out.remove(&input_name_key);
                 }
@@ -1545,6 +1556,30 @@ impl<T: PPGEvaluatorStrategy> PPGEvaluator<T> {
                         // an aborted job must no longer be offered to the driver
                         self.jobs_ready_to_run.remove(&j.job_id);
                         match j.state {
+                            // a job that was still running did not succeed. It is a failed
+                            // attempt (new_history forgets its records), unlike the jobs
+                            // that never started, which keep theirs.
+                            JobState::Ephemeral(JobStateEphemeral::Running(_)) => {
+                                set_node_state!(
+                                    j,
+                                    JobState::Ephemeral(JobStateEphemeral::FinishedFailure),
+                                    self.gen
+                                );
+                            }
+                            JobState::Output(JobStateOutput::Running) => {
+                                set_node_state!(
+                                    j,
+                                    JobState::Output(JobStateOutput::FinishedFailure),
+                                    self.gen
+                                );
+                            }
+                            JobState::Always(JobStateAlways::Running) => {
+                                set_node_state!(
+                                    j,
+                                    JobState::Always(JobStateAlways::FinishedFailure),
+                                    self.gen
+                                );
+                            }
                             JobState::Ephemeral(_) => {
                                 set_node_state!(
                                     j,
